@@ -64,6 +64,8 @@ def T(x):
         return x.t
     if isinstance(x, z3.ExprRef):
         return x
+    if isinstance(x, Fraction):
+        return z3.RealVal(x)
     return _rat(x)
 
 
@@ -629,15 +631,79 @@ def has_equality_atom(path):
     return False
 
 
-def interior_model(eng, res, extra=(), timeout_ms=5000):
+def _sides(c):
+    """(smaller, larger) sides of a strict/non-strict comparison atom, or None"""
+    k = c.decl().kind()
+    if k in (z3.Z3_OP_LE, z3.Z3_OP_LT):
+        return c.arg(0), c.arg(1)
+    if k in (z3.Z3_OP_GE, z3.Z3_OP_GT):
+        return c.arg(1), c.arg(0)
+    if k == z3.Z3_OP_NOT:
+        a = c.arg(0)
+        ka = a.decl().kind()
+        if ka in (z3.Z3_OP_LE, z3.Z3_OP_LT):
+            return a.arg(1), a.arg(0)
+        if ka in (z3.Z3_OP_GE, z3.Z3_OP_GT):
+            return a.arg(0), a.arg(1)
+    return None
+
+
+def _min_rel_slack(m, atoms):
+    worst = None
+    for c in atoms:
+        sd = _sides(c)
+        if sd is None:
+            continue
+        try:
+            lo, hi = model_value(m, sd[0]), model_value(m, sd[1])
+        except ValueError:
+            continue
+        sc = max(abs(lo), abs(hi), Fraction(1, 10**9))
+        rel = (hi - lo) / sc
+        if worst is None or rel < worst:
+            worst = rel
+    return worst
+
+
+def interior_model(eng, res, extra=(), timeout_ms=5000, margin=Fraction(1, 10**6)):
+    """a model of the path that lies well inside every inequality atom (relative slack >= margin),
+    so that the float replay of the model follows the same path.  returns (model, is_interior)"""
+    norm = [z3.simplify(c) for c in res.path]
+    atoms = [_strict(c) for c in norm]
+    if has_equality_atom(norm):
+        return res.model, False
     s = z3.Solver()
     s.set('timeout', timeout_ms)
     for a in eng.assumptions:
         s.add(a)
-    for c in res.path:
-        s.add(_strict(c))
+    for c in atoms:
+        s.add(c)
     for c in extra:
         s.add(c)
-    if s.check() == z3.sat:
-        return s.model(), True
-    return res.model, False
+    if s.check() != z3.sat:
+        return res.model, False
+    m = s.model()
+    for attempt in range(3):
+        w = _min_rel_slack(m, atoms)
+        if w is None or w >= margin:
+            return m, True
+        # push every atom away from its boundary by a margin scaled with the current model
+        s.push()
+        for c in atoms:
+            sd = _sides(c)
+            if sd is None:
+                continue
+            try:
+                lo, hi = model_value(m, sd[0]), model_value(m, sd[1])
+            except ValueError:
+                continue
+            sc = max(abs(lo), abs(hi), Fraction(1, 1000))
+            s.add(sd[1] - sd[0] >= z3.RealVal(sc * margin * 100))
+        r = s.check()
+        if r != z3.sat:
+            s.pop()
+            return m, False
+        m = s.model()
+        s.pop()
+    w = _min_rel_slack(m, atoms)
+    return m, (w is None or w >= margin)
